@@ -29,12 +29,16 @@ pub struct Rec {
     pub goal_samples: Vec<Vec<f64>>,
     pub n_uniform_calls: usize,
     pub n_goal_calls: usize,
+    /// the instant of every `sample_uniform` / `sample_goal` call (failed ones included), in
+    /// order: `call_times.len() == n_uniform_calls + n_goal_calls`
+    pub call_times: Vec<std::time::Instant>,
     pub n_satisfied_calls: usize,
     /// scripted samples (consumed front to back); when exhausted the real sampler is used
     pub script: Option<Vec<Vec<f64>>>,
     pub script_pos: usize,
     pub space_fail_at: Option<usize>,
     pub goal_fail_at: Option<usize>,
+    pub fault_persists: bool,
     pub space_faults_hit: usize,
     pub goal_faults_hit: usize,
     /// when the validity log exceeds this many entries the iteration budget is zeroed
@@ -72,7 +76,8 @@ impl<K: Kind> StateSpace for WSpace<K> {
             let mut r = self.rec.borrow_mut();
             k = r.n_uniform_calls;
             r.n_uniform_calls += 1;
-            if r.space_fail_at == Some(k) {
+            r.call_times.push(std::time::Instant::now());
+            if r.space_fail_at.is_some_and(|f| k == f || (r.fault_persists && k > f)) {
                 r.space_faults_hit += 1;
                 return Err(StateSamplingError::UnboundedDimension { dimension_index: 0 });
             }
@@ -163,7 +168,8 @@ impl<K: Kind> GoalSampleableRegion<K::S> for WGoal<K> {
             let mut r = self.rec.borrow_mut();
             k = r.n_goal_calls;
             r.n_goal_calls += 1;
-            if r.goal_fail_at == Some(k) {
+            r.call_times.push(std::time::Instant::now());
+            if r.goal_fail_at.is_some_and(|f| k == f || (r.fault_persists && k > f)) {
                 r.goal_faults_hit += 1;
                 return Err(StateSamplingError::GoalRegionUnsatisfiable);
             }
